@@ -208,9 +208,9 @@ func (s *vSrcC40) editContent() string {
 	oldM := e.st.Mtim.Nano()
 	oldSize := int(e.st.Size)
 	variants := map[int][]string{
-		vModeDefaultC40:     {"resize", "samesize-mtime-now", "samesize-ctime-only", "samesize-inode-only", "resize-keep-mtime", "samesize-new-mtime", "append"},
-		vModeIgnoreCtimeC40: {"resize", "samesize-mtime-now", "samesize-inode-only", "resize-keep-mtime", "samesize-new-mtime", "append"},
-		vModeIgnoreInodeC40: {"resize", "samesize-mtime-now", "resize-keep-mtime", "samesize-new-mtime", "append"},
+		vModeDefaultC40:     {"resize", "samesize-mtime-now", "samesize-ctime-only", "samesize-inode-only", "resize-keep-mtime", "samesize-new-mtime", "samesize-mtime-nudge", "append"},
+		vModeIgnoreCtimeC40: {"resize", "samesize-mtime-now", "samesize-inode-only", "resize-keep-mtime", "samesize-new-mtime", "samesize-mtime-nudge", "samesize-mtime-nudge", "append"},
+		vModeIgnoreInodeC40: {"resize", "samesize-mtime-now", "resize-keep-mtime", "samesize-new-mtime", "samesize-mtime-nudge", "append"},
 	}[s.mode]
 	v := rapid.SampledFrom(variants).Draw(s.t, "contentVariant")
 	if oldSize == 0 && strings.HasPrefix(v, "samesize") {
@@ -237,6 +237,12 @@ func (s *vSrcC40) editContent() string {
 	case "samesize-new-mtime":
 		s.must(os.WriteFile(p, s.content(newSize), 0o644))
 		s.must(vSetMtimeC40(p, s.uniqueMtime()))
+	case "samesize-mtime-nudge":
+		// same size, same inode, mtime moved by less than a millisecond (a tool that restores
+		// time stamps with coarser or finer resolution, two writes within one clock tick)
+		s.must(os.WriteFile(p, s.content(newSize), 0o644))
+		d := rapid.SampledFrom([]int64{1, -1, 1000, 10_000, 400_000}).Draw(s.t, "nudgeNs")
+		s.must(vSetMtimeC40(p, oldM+d))
 	case "samesize-inode-only":
 		tmp := p + ".c40tmp"
 		s.must(os.WriteFile(tmp, s.content(newSize), os.FileMode(e.st.Mode&0o777)))
